@@ -83,6 +83,11 @@ async fn write_flow(
     off
 }
 
+/// Polls a future exactly once.
+pub async fn poll_once<F: std::future::Future + Unpin>(f: &mut F) -> std::task::Poll<F::Output> {
+    std::future::poll_fn(|cx| std::task::Poll::Ready(std::pin::Pin::new(&mut *f).poll(cx))).await
+}
+
 /// Reads until `expect` bytes have been seen (then probes for surplus), or EOF / error.
 async fn read_flow(
     st: Arc<Stream>,
@@ -102,7 +107,21 @@ async fn read_flow(
         call += 1;
         let r = {
             let mut g = reader.lock().await;
-            within(g.read(&mut buf[..size])).await
+            // the read-pattern variants also cancel reads: a read with the largest buffer is polled once and, if it
+            // has to wait, dropped (what select!/timeout and Stream::poll_read do); then the real read follows
+            let mut early = None;
+            if !f.read_pattern.is_empty() && size > 0 {
+                let big = buf.len();
+                let mut fut = Box::pin(g.read(&mut buf[..big]));
+                if let std::task::Poll::Ready(x) = poll_once(&mut fut).await {
+                    early = Some(x);
+                }
+                drop(fut);
+            }
+            match early {
+                Some(x) => Some(x),
+                None => within(g.read(&mut buf[..size])).await,
+            }
         };
         match r {
             Some(Ok(0)) if size == 0 => {}
@@ -598,6 +617,79 @@ fn stream_seam_sweep(rep: &mut Report) {
     }
 }
 
+/// Part C2: reads through the AsyncRead impl that are cancelled while they wait (select!, timeout, a poll that is not
+/// followed up) and started again with another buffer size, chunks arriving in between.
+fn stream_seam_cancelled_reads(rep: &mut Report) {
+    use anytls_rs::session::StreamReader;
+    use tokio::io::AsyncReadExt;
+    let rt = tokio::runtime::Builder::new_current_thread().enable_time().build().unwrap();
+    let sizes = [1usize, 16, 64, 8192];
+    let chunks = [1usize, 16, 300, 5000];
+    for c1 in chunks {
+        for c2 in chunks {
+            for a in sizes {
+                for b in sizes {
+                    for cancel_before_second in [false, true] {
+                        let key = format!("seam-cancel chunks={c1},{c2} cancelled-read={a} later-reads={b} cancel-before-2nd={cancel_before_second}");
+                        rep.case(Some(&key));
+                        let res: Result<(), String> = rt.block_on(async {
+                            let (tx, _rx) = tokio::sync::mpsc::unbounded_channel();
+                            let (rtx, rrx) = tokio::sync::mpsc::unbounded_channel();
+                            let (mut st, _s) = Stream::new(5, StreamReader::new(5, rrx), tx);
+                            let d1 = pat_vec(9, 0, 0, c1);
+                            let d2 = pat_vec(9, 0, c1, c2);
+                            let mut want = d1.clone();
+                            want.extend_from_slice(&d2);
+                            let mut back: Vec<u8> = vec![];
+                            // a read that has to wait is cancelled
+                            {
+                                let mut big = vec![0u8; a];
+                                let mut fut = Box::pin(st.read(&mut big));
+                                if let std::task::Poll::Ready(r) = poll_once(&mut fut).await {
+                                    return Err(format!("a read on an empty open stream completed: {r:?}"));
+                                }
+                            }
+                            rtx.send(Bytes::from(d1.clone())).unwrap();
+                            let mut buf = vec![0u8; b];
+                            while back.len() < c1 {
+                                let n = tokio::time::timeout(Duration::from_secs(5), st.read(&mut buf)).await.map_err(|_| format!("read blocks with {} of {c1} delivered bytes outstanding", c1 - back.len()))?.map_err(|e| e.to_string())?;
+                                if n == 0 {
+                                    return Err(format!("end-of-stream after {} of {} bytes", back.len(), want.len()));
+                                }
+                                back.extend_from_slice(&buf[..n]);
+                            }
+                            if cancel_before_second {
+                                let mut big = vec![0u8; a];
+                                let mut fut = Box::pin(st.read(&mut big));
+                                if let std::task::Poll::Ready(r) = poll_once(&mut fut).await {
+                                    return Err(format!("a read completed although everything delivered had been read: {r:?}"));
+                                }
+                            }
+                            rtx.send(Bytes::from(d2.clone())).unwrap();
+                            drop(rtx);
+                            loop {
+                                let n = tokio::time::timeout(Duration::from_secs(5), st.read(&mut buf)).await.map_err(|_| "read blocks although the stream has ended".to_string())?.map_err(|e| e.to_string())?;
+                                if n == 0 {
+                                    break;
+                                }
+                                back.extend_from_slice(&buf[..n]);
+                            }
+                            if back != want {
+                                let first = back.iter().zip(want.iter()).position(|(x, y)| x != y).unwrap_or(back.len().min(want.len()));
+                                return Err(format!("{} bytes read for {} delivered (first difference at offset {first})", back.len(), want.len()));
+                            }
+                            Ok(())
+                        });
+                        if let Err(e) = res {
+                            rep.violation("C01:stream-seam", &format!("{key}: {e}"), json!({"engine": "IX", "case": key}));
+                        }
+                    }
+                }
+            }
+        }
+    }
+}
+
 /// Tunnel through one of the two front-ends; `small_rcvbuf`: our side of the connection has a tiny receive buffer.
 async fn open_tunnel(front: &str, proxy: std::net::SocketAddr, dest: std::net::SocketAddr, small_rcvbuf: bool) -> Result<tokio::net::TcpStream, String> {
     use tokio::io::{AsyncReadExt, AsyncWriteExt};
@@ -787,6 +879,7 @@ pub fn run(tier: Tier) -> i32 {
         "payload byte i of stream s, direction d is a fixed function f(s,d,i); other contents are not explored".into(),
     ];
     stream_seam_sweep(&mut rep);
+    stream_seam_cancelled_reads(&mut rep);
     lx_part(&mut rep, tier.is_thorough());
     let cap = Duration::from_secs(if tier.is_thorough() { 1500 } else { 90 });
     run_items(
